@@ -1,4 +1,4 @@
 CONSTANTS
-  Fams = {"closure", "call", "rec", "assign", "destr", "const", "loop", "epi"}
+  Fams = {"closure", "call", "rec", "assign", "destr", "const", "loop", "epi", "catchvar"}
 SPECIFICATION Spec
 INVARIANTS Modelled Export
